@@ -18,8 +18,21 @@ CLASSES = {
     'Event': dict(fields={}),
     'PollInfo': dict(fields={'pending_errors': 'set', 'interval': 'any', 'last_main': 'any', 'last_slow': 'any', 'fast_flag': 'any',
                              'trigger_event': 'Event'}),
-    'Module': dict(fields={'name': 'str', 'pollInfo': 'PollInfo|none', 'log': 'any', 'pollinterval': 'any'}),
+    'Module': dict(fields={'name': 'str', 'pollInfo': 'PollInfo|none', 'log': 'any', 'pollinterval': 'any', 'enablePoll': 'bool',
+                           'writeDict': 'dict', 'polledModules': 'list:Module', 'triggerPoll': 'any', 'initModuleDone': 'any'},
+                   dyn_fields={'io': 'Module'}),
 }
+
+def InThread(m, has_io):
+    """the module is in the list of modules of the poll thread that serves it"""
+    owner = getattr(m, 'io') if has_io else m
+    return len(owner.polledModules) > 0 and same_object(owner.polledModules[len(owner.polledModules) - 1], m)
+
+
+def ThreadHasTrigger(m, has_io):
+    owner = getattr(m, 'io') if has_io else m
+    return owner.triggerPoll is not None
+
 
 def Calls(log, kind, mod=None, name=None):
     return [e for e in log if e[1] == kind and (mod is None or e[2] == mod) and (name is None or e[3] == name)]
@@ -118,6 +131,18 @@ CONTRACTS = [
                   'normal': 'implies(self.pollInfo is not None and not flag, same_value(self.pollInfo.interval, self.pollinterval))',
                   'flag': 'implies(self.pollInfo is not None, self.pollInfo.fast_flag is flag and len(wakeups) == len(old(wakeups)) + 1)',
                   'no_thread': 'implies(self.pollInfo is None, wakeups == old(wakeups))'},
+         raises='never'),
+    # ---- C15: a module that is polled OR has configured values to write is handed to a poll thread (its own or its io module's)
+    dict(key='threading.Event', file=None, func=None, signature='', serves=[], trusted=True, requires=[], ensures={}, raises='never',
+         result_type='Event', result_fresh=True),
+    dict(key='Module.initModule', file='frappy/modulebase.py', func='Module.initModule', serves=['C15'], self_type='Module',
+         requires=['inv(self)', "implies(has_dyn(self, 'io'), inv(getattr(self, 'io')))"],
+         modifies=['initModuleDone', 'polledModules', 'triggerPoll'], check_frame=False,
+         ensures={'handled': "implies(self.enablePoll or len(old(self.writeDict)) > 0, InThread(self, has_dyn(self, 'io')))",
+                  'trigger': "implies(self.enablePoll or len(old(self.writeDict)) > 0, ThreadHasTrigger(self, has_dyn(self, 'io')))",
+                  'unhandled': "implies(not self.enablePoll and len(old(self.writeDict)) == 0,"
+                               " unchanged('polledModules') and unchanged('triggerPoll'))",
+                  'done': 'self.initModuleDone is True'},
          raises='never'),
     # error containment: whatever a read / poll function raises stays inside, except a communication failure when asked for
     dict(key='Module.callPollFunc', file='frappy/modulebase.py', func='Module.callPollFunc', serves=['C13'],
